@@ -27,6 +27,8 @@ CONSTANTS
   OthersCall = "never"
   KeepPagesWritable = FALSE
   TrampFlushed = TRUE
+  Regen = FALSE
+  SavedFrom = "install"
   MaxLives = 1
 ACTION_CONSTRAINT AtomicAC
 INVARIANT Emit
